@@ -71,7 +71,7 @@ theorem minusDays_plus (d e : Fields) (n : Int) (hd : valid d = true)
   exact ⟨by simp only [minusDays]; omega, b⟩
 
 example : valid ⟨1900, 2, 28, 12, 0, 0, 0⟩ = true ∧
-    plus ⟨1900, 2, 28, 12, 0, 0, 0⟩ ⟨0, 0, 36525, 0, 0, 0, 0⟩ = some ⟨2000, 3, 1, 12, 0, 0, 0⟩ := by decide
+    plus ⟨1900, 2, 28, 12, 0, 0, 0⟩ ⟨0, 0, 36525, 0, 0, 0, 0⟩ = some ⟨2000, 2, 29, 12, 0, 0, 0⟩ := by decide
 
 /-- Millisecond differences are consistent with additions: `(d + k ms) − d = k` ms (both
 branches of `MinusMs`). -/
